@@ -144,6 +144,18 @@ pub fn run(outdir: &Path, tier: &str, seed: u64, shards: usize, replay: Option<S
                 }
             }
         }
+        // the same schema as SDL that also declares the built-in scalars it uses (legal SDL; servers print it)
+        {
+            let mut q = p.clone();
+            let mut defs: Vec<TypeDef> = BUILTIN.iter().map(|n| TypeDef::Scalar { name: n.to_string() }).collect();
+            defs.extend(q.schema.defs.clone());
+            q.schema.defs = defs;
+            let o = gencase::observe(&q, None);
+            if o.coq != base.coq {
+                differing.push("sdl with explicit built-in scalars".to_string());
+            }
+            others.push(format!("({}, {})", coq::s("sdl with explicit built-in scalars"), o.coq));
+        }
         for f in ["extend", "one_of", "deprecated", "explicit roots", "union", "interface"] {
             let has = match f {
                 "extend" => p.schema.defs.iter().any(|d| matches!(d, TypeDef::Extend { .. })),
